@@ -34,10 +34,11 @@ U == <<
   L(8, "TERMOSOLAR", "INSITU", "A_RED", "B"),
   L(9, "GASNATURAL", "RED", "SUMINISTRO", "A"),
   L(10, "BIOMASA", "RED", "SUMINISTRO", "A"),
-  L(11, "RED1", "RED", "SUMINISTRO", "A"),
-  L(12, "ELECTRICIDAD", "INSITU", "A_NEPB", "A"),
-  L(13, "ELECTRICIDAD", "INSITU", "A_RED", "B"),
-  L(14, "ELECTRICIDAD", "COGEN", "A_NEPB", "B"),
+  \* a line of a fuel that is NOT its grid supply factor: with it and without line 9 the set is unusable
+  L(11, "GASNATURAL", "INSITU", "SUMINISTRO", "A"),
+  L(12, "RED1", "RED", "SUMINISTRO", "A"),
+  L(13, "ELECTRICIDAD", "INSITU", "A_NEPB", "A"),
+  L(14, "ELECTRICIDAD", "INSITU", "A_RED", "B"),
   L(15, "EAMBIENTE", "INSITU", "SUMINISTRO", "A"),
   L(16, "EAMBIENTE", "INSITU", "A_NEPB", "B") >>
 UserRed1 == <<501, 601, 701>>
